@@ -127,7 +127,7 @@ class Driver(SystemWideDevice):
         if pulse_power is None:
             pulse_power = self.config['default_pulse_power'] if self.config['default_pulse_power'] is not None else 1.0
 
-        if pulse_power and 0 > pulse_power > 1:
+        if pulse_power < 0 or pulse_power > 1:
             raise AssertionError("Pulse power has to be between 0 and 1 but is {}".format(pulse_power))
 
         max_pulse_power = 0
@@ -158,7 +158,7 @@ class Driver(SystemWideDevice):
         if hold_power is None:
             hold_power = 0.0
 
-        if hold_power and 0 > hold_power > 1:
+        if hold_power < 0 or hold_power > 1:
             raise AssertionError("Hold_power has to be between 0 and 1 but is {}".format(hold_power))
 
         max_hold_power = 0      # type: float
@@ -186,7 +186,7 @@ class Driver(SystemWideDevice):
         if not isinstance(pulse_ms, int):
             raise AssertionError("Wrong type {}".format(pulse_ms))
 
-        if 0 > pulse_ms > self.platform.features['max_pulse']:
+        if pulse_ms < 0:
             raise AssertionError("Pulse_ms {} is not valid.".format(pulse_ms))
 
         if self.config['max_pulse_ms'] and pulse_ms > self.config['max_pulse_ms']:
@@ -206,6 +206,9 @@ class Driver(SystemWideDevice):
 
         if not isinstance(timed_enable_ms, int):
             raise AssertionError("Wrong type {}".format(timed_enable_ms))
+
+        if timed_enable_ms < 0:
+            raise AssertionError("Timed_enable_ms {} is not valid.".format(timed_enable_ms))
 
         if self.config['max_hold_duration'] and timed_enable_ms > self.config['max_hold_duration']:
             raise DriverLimitsError("Driver {} may not be held with timed_enable_ms {} because max_hold_duration is {}".
